@@ -79,7 +79,9 @@ void Exec::exec_step(const Step& st, int depth) {
   }
   // The caller of a step is usually the main thread; now and then it is another OS thread of the host program, started
   // and joined at once (no concurrency, so nothing nondeterministic): state must not be tied to the calling thread.
-  const bool other_thread = depth == 0 && st.op != OP_EXIT_HERE && (st.u >> 41) % 40 == 7;
+  // (Only in the exception build: there no step forks, and forking from a secondary thread is not something the
+  // harness should add to the picture.)
+  const bool other_thread = kExcBuild && depth == 0 && st.op != OP_EXIT_HERE && (st.u >> 41) % 40 == 7;
   auto dispatch = [&] {
     if (cl.prec == 0)
       do_step<double>(st, cl, depth);
@@ -607,12 +609,13 @@ void Exec::do_step(const Step& st, const Client& cl, int depth) {
         // evaluations stay allowed (divisions by zero give inf/NaN, which compare bit for bit like anything else)
         std::string n = pn[(size_t)st.a % pn.size()];
         S v = S(0.0);
+        std::vector<std::string> zeros;
         for (auto& kv : cur->p)
-          if (kv.second == 0.0L) {
-            n = kv.first;
-            v = std::signbit((S)kv.second) ? S(0.0) : S(-0.0);
-            break;
-          }
+          if (kv.second == 0.0L) zeros.push_back(kv.first);
+        if (!zeros.empty() && (st.a / 7) % 3 != 0) {  // usually flip the sign of a zero that is stored already
+          n = zeros[(size_t)st.a % zeros.size()];
+          v = std::signbit((S)cur->p[n]) ? S(0.0) : S(-0.0);
+        }
         writes.push_back(std::make_pair(n, v));
         admissible = true;
       } else
@@ -1244,6 +1247,7 @@ void Exec::do_step(const Step& st, const Client& cl, int depth) {
       pid_t pid = fork();
       if (pid < 0) sim_die("fork failed");
       if (pid == 0) {
+        child_prologue(false);
         g_probe_has_cur[0] = reg[0].has_cur;
         g_probe_has_cur[1] = reg[1].has_cur;
         g_exit_probe = &exit_probe;
